@@ -172,6 +172,11 @@ ActionClauses(e) ==
          \o Chk(Means(o.items) = Means(pre.items) /\ Struct(o.items) = Struct(pre.items) /\ Notes(o.items) = Notes(pre.items)
                 /\ Ids(o.items) = Ids(pre.items) /\ BlockIds(o.items) = BlockIds(pre.items) /\ SameSettings(o, pre), e, "C10.something-else-changed")
          \o (IF p.ok /\ e.exc = "" THEN Chk(ToTree(o.items) = p.tree, e, "C10.numbers") \o Chk(e.ret_num = p.ret, e, "C10.returned-last-number") ELSE <<>>)
+         (* C15: after an accepted renumbering with a positive step the top-level numbers are distinct and ascending,
+            so sorting any permutation of the items restores this order *)
+         \o (IF p.ok /\ e.exc = "" /\ e.s # <<0, 0>> /\ e.d # <<0, 0>>
+             THEN Chk(TopSeqsDistinct(o.items) /\ SortedBySeq(o.items), e, "C15.renumbered-items-would-not-sort-back-into-this-order")
+             ELSE <<>>)
     [] e.act = "Group" ->
          Chk(e.exc = "", e, "C15.group-raised")
          \o Compare(e, IF e.prefix = "" THEN pre.items ELSE GroupItems(pre.items, e.prefix), o.items, old, "C15")
